@@ -525,7 +525,10 @@ func mixBLSFirstUse(c *Ctx, g int) string {
 }
 
 func mixECDSA(c *Ctx, g int) string {
-	msg := c.bytes(30)
+	// a message longer than a sponge block that starts at an odd address (a staging copy for unaligned input that is
+	// shared between hasher objects is used only then)
+	frame := c.bytes(1 + 400)
+	msg := frame[1:]
 	for _, cv := range ecCurves {
 		sk := ecSk(cv, c.randMod(cv.n))
 		pk := sk.PublicKey()
